@@ -33,7 +33,22 @@ RULE = (
     "with bound break/for with else, break, continue, try/except E/else/finally, with (suppressing / not), return, "
     "raise, boom(), nested def reading / nonlocal-writing v, global v), checked as a module of its own; quick: "
     "EVERY junk-free skeleton with <=5 statements (global mode <=4) and nesting <=3, sharded by index; thorough: "
-    "the same plus 8000 random skeletons per shard with 6-7 statements. Junk-free = nothing after a statement that "
+    "the same plus 8000 random skeletons per shard with 6-7 statements. Two families beyond those bounds, each "
+    "enumerated completely in both tiers. (a) iterable family: the iterable of a `for` is part of the skeleton - the "
+    "default `it()` (unknown length), a literal of known length written in the header (`(7, 8)`, `\"ab\"`, `()`), or a "
+    "name bound right before the loop in the two arms of an `if c():` to two members (non-empty|unknown, "
+    "empty|non-empty, empty|unknown, two non-empty tuples of different lengths), so that the iterable is inferred as a "
+    "union; every junk-free local skeleton with <=4 statements that contains a `for` (thorough: also <=5 statements "
+    "over asg/use/break/continue/return/if/for/while/while True/try-except/try-finally), each `for` in turn with each "
+    "of the 7 kinds. The reference executor runs a literal exactly len() times in the strict space and picks each "
+    "member of a union; in the liberal space every iterable is of unknown length. (b) loop-nest family: an inner "
+    "for/while whose body and else are built from asg/use/break/continue (a break/continue in the inner else acts on "
+    "the OUTER loop), inside the body of a `while True`/while/for (optionally one simple statement before/after the "
+    "inner loop and in the outer else), the outer loop in an arm of if / if-else / try-except / try-finally / "
+    "suppressing with / the body of another while/for, optionally an assignment before and a use after; <=3 simple "
+    "statements in all (4 under `while True`, whose mandatory break takes one; thorough: 4 resp. 5), i.e. 6-7 "
+    "statements at nesting 4 (three loops inside each other: <=2^10 runs per exploration). "
+    "Junk-free = nothing after a statement that "
     "cannot complete, no trailing return/continue, no repeated use, no dead store outside fault-protected regions, "
     "boom() only where something can intercept it; each tree is generated once (dedupe by shape). Each skeleton is "
     "run under all decision vectors (DFS over the prefix tree, <=18 decisions/run, <=2^14 runs, loops capped per "
@@ -53,6 +68,12 @@ ASSUMPTIONS = [
     "(try body with handler; try body/handler/else of a try with finally; suppressing with); `while True` as written",
     "liberal space: additionally a raise before every statement of such a region and after its last statement; "
     "every loop may exit after any iteration; exceptions are E (caught by `except E`) or one not caught by it",
+    "iterables: in the strict space a literal iterable (tuple, str) yields exactly len() items and a name bound to "
+    "one of two members in the arms of `if c():` is either of them (c() may raise where something intercepts it); the "
+    "header of such a loop contains no call, so nothing raises there; in the liberal space every iterable is of "
+    "unknown length (0..L items), like `it()`",
+    "skeletons with three loops inside each other are explored with <=2^10 runs per exploration instead of 2^14 (the "
+    "upper bound is then mostly undecided and counted as such; strict runs made still decide the lower bound)",
     "a real execution ends at the first UNBOUND read (CPython raises at a non-call); the run is continued past it "
     "only to widen the upper bound, because a reaching-definitions analysis does not stop at a use",
     "upper bound only when all four explorations (strict/liberal x L=2/3) completed and L=2,3 agree; else undecided",
@@ -67,10 +88,12 @@ ASSUMPTIONS = [
     "executed sets is counted as harness-inconsistent",
 ]
 FLOORS = {
-    "quick": {"distinct_nontrivial": 8000, "skeletons": 25000, "schedules_run": 3000000, "uses_observed": 38000,
-              "upper_decided": 24000, "lower_checks": 29000, "upper_checks": 26000},
+    "quick": {"distinct_nontrivial": 10000, "skeletons": 29000, "schedules_run": 4400000, "uses_observed": 46000,
+              "upper_decided": 27000, "lower_checks": 36000, "upper_checks": 30000,
+              "iter_skeletons": 1250, "nest_skeletons": 3100},
     "thorough": {"distinct_nontrivial": 29000, "skeletons": 88000, "schedules_run": 18000000, "uses_observed": 188000,
-                 "upper_decided": 84000, "lower_checks": 128000, "upper_checks": 131000},
+                 "upper_decided": 84000, "lower_checks": 128000, "upper_checks": 131000,
+                 "iter_skeletons": 22000, "nest_skeletons": 18000},
 }
 NSHARDS = 16
 WATCHDOG_S = {"quick": 2400, "thorough": 7200}  # ~35 CPU-s / ~170 CPU-s per shard; wall only ever => inconclusive
@@ -79,6 +102,7 @@ WATCHDOG_S = {"quick": 2400, "thorough": 7200}  # ~35 CPU-s / ~170 CPU-s per sha
 # for a use before any assignment, because another function's nested def had "assigned" the module's v).
 MAX_DEC = 18
 MAX_RUNS = 1 << 14
+NEST3_MAX_RUNS = 1 << 10
 SHRINK_BUDGET = 200
 SAMPLED_PER_SHARD = 8000
 
@@ -198,7 +222,8 @@ class Runs:
                  "reached")
 
 
-def execute(mode, body) -> Runs:
+def execute(mode, body, max_runs: int = 0) -> Runs:
+    MAX_RUNS = max_runs or globals()["MAX_RUNS"]
     ns = sk.compile_instr(mode, body)
     out = Runs()
     real = {}
@@ -316,10 +341,11 @@ class Assessment:
 _CACHE: dict = {}
 
 
-def assess(mode, body, full: bool = True) -> Assessment:
-    """pyanalyze + all executions + verdicts for one (unmarked) skeleton.  Pure in (mode, body); the raw
-    verdicts are memoised (minimisation re-checks the same small skeletons over and over)."""
-    key = (mode, body)
+def assess(mode, body, full: bool = True, max_runs: int = 0) -> Assessment:
+    """pyanalyze + all executions + verdicts for one (unmarked) skeleton.  Pure in (mode, body, max_runs); the raw
+    verdicts are memoised (minimisation re-checks the same small skeletons over and over).  A smaller max_runs
+    only ever yields a subset of the verdicts of the default one (fewer strict runs; upper bound undecided)."""
+    key = (mode, body, max_runs)
     if not full and key in _CACHE:
         a = Assessment()
         a.raws = _CACHE[key]
@@ -332,7 +358,7 @@ def assess(mode, body, full: bool = True) -> Assessment:
         a.runs = None
         a.raws = []
     else:
-        a.runs = execute(mode, body)
+        a.runs = execute(mode, body, max_runs)
         # the harness disagreeing with itself on this skeleton: no verdict
         a.raws = [] if a.runs.inconsistent else judge(mode, body, a.reports, a.runs, a.stats)
     if len(_CACHE) > 1000000:
@@ -413,6 +439,13 @@ def _deletions(body):
         if s[0] == "wtrue":
             yield _edit(body, p, (("while", s[1], ()),))
         if s[0] == "for":
+            kind = sk.iter_kind(s)
+            if kind:  # the plain `it()` header, then each member of a union on its own
+                yield _edit(body, p, (s[:3],))
+                if len(sk.ITER_MEMBERS[kind]) > 1:
+                    for k2, mem in sk.ITER_MEMBERS.items():
+                        if len(mem) == 1 and mem[0] in sk.ITER_MEMBERS[kind]:
+                            yield _edit(body, p, (s[:3] + (k2,),))
             yield _edit(body, p, (("while", s[1], s[2]),))
 
 
@@ -526,9 +559,12 @@ def relation(pa, pu, body=None, through: bool = False) -> str:
     i = _common(pa, pu)
     if pa[i][0] == pu[i][0]:  # same block, different statements
         if pa[i][1] < pu[i][1]:
-            if (len(pa) > i + 1 and body is not None and pa[i + 1][0] in ("if-body", "if-else")
+            if (len(pa) > i + 1 and body is not None
+                    and pa[i + 1][0] in ("if-body", "if-else", "while-else", "for-else")
                     and not _falls_through(body, pa[: i + 2])):
-                return f"back-edge@{_loop_of(pa[: i + 1])}"  # e.g. `if c(): v = 1; break` then the use
+                # e.g. `if c(): v = 1; break` then the use; likewise the else of an inner loop ending in a
+                # break/continue (which act on the loop around it): only the back edge leads to the use
+                return f"back-edge@{_loop_of(pa[: i + 1])}"
             return f"{_chain(pa[i + 1:], through)}>after"
         return f"back-edge@{_loop_of(pa[: i + 1])}"  # the assignment is textually after the use
     a, u = _role(pa[i][0]), _role(pu[i][0])  # different blocks of one compound statement
@@ -577,8 +613,17 @@ def classify(mode, body, raw):
                                              "key": key}
 
 
+def _feature(s) -> str:
+    if s[0] == "with":
+        return "with" + s[1]
+    if s[0] == "for" and sk.iter_kind(s):
+        # the iterable is part of the mechanism: members by known length / unknown, e.g. for[2|?]
+        return "for[" + "|".join(sorted({str(sk.MEMBER_LEN.get(m, "?")) for m in sk.ITER_MEMBERS[sk.iter_kind(s)]})) + "]"
+    return s[0]
+
+
 def features(body):
-    return sorted({s[0] if s[0] != "with" else "with" + s[1] for _, s in sk.walk(body)} - {"asg", "use"})
+    return sorted({_feature(s) for _, s in sk.walk(body)} - {"asg", "use"})
 
 
 def to_json(x):
@@ -587,7 +632,7 @@ def to_json(x):
     return x
 
 
-_VOCAB = set(sk.SIMPLE) | {"if", "while", "wtrue", "for", "try", "with", "S", "N"}
+_VOCAB = set(sk.SIMPLE) | {"if", "while", "wtrue", "for", "try", "with", "S", "N"} | set(sk.ITER_MEMBERS)
 
 
 def from_json(j):
@@ -607,8 +652,8 @@ def from_json(j):
 # driver
 
 
-def run_one(ctx, mode, body, sampled: bool = False) -> None:
-    a = assess(mode, body)
+def run_one(ctx, mode, body, sampled: bool = False, max_runs: int = 0) -> None:
+    a = assess(mode, body, max_runs=max_runs)
     ctx.count("evaluations")
     ctx.count("skeletons")
     if a.exception is not None:
@@ -686,6 +731,16 @@ def shard(ctx) -> None:
                 if ctx.mine(idx):
                     work.append((mode, body))
     ctx.count("exhaustive_skeletons", len(work))
+    # targeted families beyond those bounds (each enumerated completely, sharded by the same running index)
+    fam = []
+    for mode, body in sk.iter_family(4, ctx.pick(4, 5)):
+        idx += 1
+        if ctx.mine(idx):
+            fam.append(("iter", mode, body))
+    for mode, body in sk.nest_family(ctx.pick(3, 4)):
+        idx += 1
+        if ctx.mine(idx):
+            fam.append(("nest", mode, body))
     if not ctx.quick:
         want = SAMPLED_PER_SHARD
         tries = 0
@@ -700,6 +755,19 @@ def shard(ctx) -> None:
         ctx.count("sampled_skeletons", len(seen))
     for mode, body in work:
         run_one(ctx, mode, body)
+    for which, mode, body in fam:
+        ctx.count(which + "_skeletons")
+        if which == "iter":
+            for _, s in sk.walk(body):
+                if s[0] == "for" and sk.iter_kind(s):
+                    ctx.histo("iterable_kind", "|".join(sk.MEMBER_SRC[m] for m in sk.ITER_MEMBERS[sk.iter_kind(s)]))
+            run_one(ctx, mode, body)
+        else:
+            deep = sk.loop_nesting(body) >= 3
+            ctx.histo("nest_shape", sk.nest_shape(body))
+            # three loops inside each other: the schedule space is cut at NEST3_MAX_RUNS (the upper bound is then
+            # mostly undecided; every strict run that was made still counts for the lower bound)
+            run_one(ctx, mode, body, max_runs=NEST3_MAX_RUNS if deep else 0)
     if not ctx.quick:
         for mode, body in sorted(seen, key=repr):
             run_one(ctx, mode, body, sampled=True)
